@@ -4,6 +4,8 @@
 \* The driver overrides Alphabet / MaxLen / MaxFaults / ReqInline per run (see cmd/c20/main.go);
 \* measured with the constants below: 18,250 distinct states (30,634 generated), 4 s (before the @requires-value kinds; unchanged for this alphabet);
 \* MC_Entities_fixed.cfg: 21,184; MC_Entities_emit.cfg (order in the state): 25,080 states, 1,414 behaviours.
+\* Round 4 (several @requires paths, types P / Pm, per-slot values `ps`): quick-tier exports rp1 (26 kinds <= 1, both
+\* ReqInline values) 1,003 states / 131 behaviours each, rp2 (7 kinds <= 2) 11,394 / 707, rp3 (3 Pm kinds <= 3).
 SPECIFICATION Spec
 CONSTANTS
   MaxLen = 3
